@@ -44,6 +44,8 @@ FAULTS = [
     ('noinclude', 'include ""'), ('noinclude', 'include .'), ('noinclude', 'include_bytes .'),
     ('twin', 'bnez x8, TWIN_TARGET_91'), ('twin', 'beq x8, x9, TWIN_TARGET_91'), ('twin', 'c.beqz x8, %offset(TWIN_TARGET_91)'),
     ('noinclude', 'include missing_file_61.asm'), ('noinclude', 'include_bytes missing_blob_62.bin'), ('noinclude', 'include'),
+    # (round 10) a register operand written as a constant whose value is no register number (the constant's definition, a valid line, is added to the program)
+    ('badreg', 'lw x5, 0(KBIG_72)'), ('badreg', 'addi KBIG_72, x5, 1'), ('badreg', 'mv x5, KBIG_72'), ('badreg', 'sll x5, x5, KBIG_72'),
     # (round 9) the missing name has a directory part that does not exist, or that is a regular file
     ('noinclude', 'include no_such_dir_63/defs.asm'), ('noinclude', 'include_bytes no_such_dir_64/blob.bin'), ('noinclude', 'include main.asm/extra.asm'),
     ('expansion', 'bgt x5, x6, {far}'), ('expansion', 'bleu x5, x6, {far}'), ('expansion', 'beqz x5, {far}'), ('expansion', 'li x99, 0x12345678'),
@@ -96,6 +98,8 @@ def cases(draw, rot=0):
             cls, text = 'mutated', mutated
     needs_far = '{far}' in text
     text = text.replace('{label}', labels[0] if labels else 'nowhere_0')
+    if 'KBIG_72' in text:
+        lines.insert(0, 'KBIG_72 = 0x20000000')
     if needs_far:
         # a label more than 4 KiB away: branch pseudo-instructions cannot reach it
         text = text.replace('{far}', 'FARAWAY_77')
